@@ -157,4 +157,21 @@ PROPERTIES = {
                 bounds_text={"quick": "emission-site obligations, each necessary for the emitted package/module to build: (O6) imports match uses in go-client/go-http files for 1-2 methods x 6 verbs x path variable x query annotation; unused locals/imports in codec files for timestamp_format x5, bytes_encoding x6, empty_behavior x4, int64_encoding x3 x 4 kinds x repeated, at 4 placements, both generators; (O5) duplicate const in a TS route for verb x path variable x query; (O3) client Go identifier = protoc-gen-go identifier over 9 name shapes with symbolic letters/digits; (O1) one MarshalJSON per type for every pair of 5 codec features, both generators"},
                 assumptions=["the claim is 'these obligations hold', not 'the package compiles': type-level obligations (O2: expressions presupposing singular non-optional Go field types), name-collision obligations (O4) and TypeScript syntax are not covered",
                              "obligations are evaluated on the recorded emission trace (text of the P() calls) by scanners written in the harness"]),
+    "C01": E_ROUNDTRIP(
+        overlay={"gen/roundtrip/zz_verif_c01a.go": "harness/c01/c01_common.go", "gen/roundtrip/zz_verif_c01b.go": "harness/c01/c01_roundtrip.go"},
+        harnesses=[dict(func="VerifC01RoundTrip", reach=["C01/delivered", "C01/kf-zero-required", "C01/kf-octet-stream"], quick=dict(budget=400, parts=8), thorough=dict(budget=1500, parts=16))],
+        bounds_text={"quick": "one service with 5 RPCs (GET with path+4 query fields, POST body, PUT and PATCH path+body incl. repeated field, DELETE with int64 path variable); content type in {json, x-protobuf, octet-stream}; path-bound strings <= 2 chars over [ab +/%?#], query strings <= 2 over [ab &=+%], body strings <= 3 printable ASCII, all integers full range, response with symbolic id/total/ok and 0..1 items; client and server are the emitted code, joined by an in-process transport and the mux model"},
+        assumptions=E_ASSUMPTIONS + ["url.PathEscape/QueryEscape with the mux's unescaping, and url.Values.Encode with URL.Query, are modelled as the documented inverse pairs; http.Client.Do = Transport.RoundTrip; ServeMux registration/dispatch by a segment matcher",
+                                     "non-ASCII text, map/oneof/optional body fields and the JSON-mapping annotations are not in this check's schema (C04/C05 family)"]),
+    "C17": dict(mode="E", schemas=[dict(name="binding", run="go,go-http"), dict(name="roundtrip", run="go,go-http,go-client")],
+                load_pkgs=["./gen/binding", "./gen/roundtrip"], pkgpath="verifmod/gen/binding", test_pkg="./gen/binding", test_pkgname="binding",
+                init=[MOD + "/http", "verifmod/gen/binding", "verifmod/gen/roundtrip"],
+                overlay={"gen/binding/zz_verif_c02.go": "harness/c02/c02_binding.go", "gen/binding/zz_verif_c17.go": "harness/c17/c17_server.go",
+                         "gen/roundtrip/zz_verif_c01a.go": "harness/c01/c01_common.go", "gen/roundtrip/zz_verif_c17.go": "harness/c17/c17_client.go"},
+                harnesses=[dict(func="VerifC17ServerHistory", reach=["C17/server/decided"], quick=dict(budget=400, parts=8, flags=["-maxpaths", "200000"]), thorough=dict(budget=1500, parts=16, flags=["-maxpaths", "800000"])),
+                           dict(func="VerifC17ClientOptions", pkgpath="verifmod/gen/roundtrip", test_pkg="./gen/roundtrip", test_pkgname="roundtrip",
+                                reach=["C17/client/decided"], quick=dict(budget=200), thorough=dict(budget=600))],
+                bounds_text={"quick": "server: two services x two routes each registered through the emitted Register*Server on one mux; request A then request B, each over 4 routes x header presence (service-level required+optional, method-level) x 2 ids (thorough: also malformed header values); B-after-A compared with B on a freshly registered server. client: call A then call B on one emitted client over 3 RPCs x per-call header options x per-call content type, compared with B on a fresh client"},
+                assumptions=E_ASSUMPTIONS + ["sufficient condition only: sequential history independence and route/option isolation are decided; interleavings of concurrent calls are NOT explored (no schedule exploration in this family) and the race detector is not involved",
+                                             "sync.Once is modelled sequentially"]),
 }
